@@ -173,10 +173,19 @@ open AL.Yaml AL.Ast AL.PW Driver
 def diagS (d : AL.Rules.Diag) : String :=
   s!"{d.pos.line}:{d.pos.col}:{d.kind}:{d.code}:{",".intercalate (d.args.map hexStr)}"
 
-/-- `lintwf <numbers> <bad urls> <node>`: the parser and the AST-only rules, sorted as `Linter.check` sorts;
-`<bad urls>`: the Docker URIs `url.Parse` rejects -/
-def handleLint : List String → String
-  | [nums, urls, node] =>
+/-- the known zone names `(hex,…)` / `E` as the `zoneKnown` of the rules' configuration -/
+def zonesOf (zones : String) : Option (List String) :=
+  match readSExp zones with
+  | some (.atom "E") => some []
+  | some (.list l) => l.mapM SExp.str?
+  | _ => none
+
+/-- the diagnostics, followed by one pseudo entry `line:col:events:cron-unmodelled:` per `schedule` entry whose interval the
+model does not judge (a zone other than UTC): the other side leaves the `too frequent` diagnostic of these entries out -/
+def lintAnswer (ds : List AL.Rules.Diag) (skip : List AL.Rules.Pos) : String :=
+  ";".intercalate (ds.map diagS ++ skip.map fun p => s!"{p.line}:{p.col}:events:cron-unmodelled:")
+
+def lintWith (nums urls zones node : String) : String :=
     let ns : Option (List Num) := match readSExp nums with
       | some (.atom "E") => some []
       | some (.list l) => l.mapM numOf
@@ -184,13 +193,21 @@ def handleLint : List String → String
     let bad : Option (List String) := match readSExp urls with
       | some (.list l) => l.mapM SExp.str?
       | _ => none
-    match ns, bad, (readSExp node) >>= nodeOf with
-    | some ns, some bad, some n =>
+    match ns, bad, zonesOf zones, (readSExp node) >>= nodeOf with
+    | some ns, some bad, some zs, some n =>
       let isNum : String → Bool := fun s => match ns.find? (·.value = s) with
         | some x => (match x.float with | .err => false | _ => true)
         | none => false
-      ";".intercalate ((AL.Rules.lint (cfgOf ns) isNum (fun u => !bad.contains u) n).map diagS)
-    | _, _, _ => "bad-op"
+      let lc : AL.Rules.LabelCfg := { zoneKnown := fun z => zs.contains (String.ofList z) }
+      lintAnswer (AL.Rules.lint (cfgOf ns) isNum (fun u => !bad.contains u) n lc) (AL.Rules.cronUnmodelled (parse (cfgOf ns) n).1 lc)
+    | _, _, _, _ => "bad-op"
+
+/-- `lintwf <numbers> <bad urls> [<zones>] <node>`: the parser and the AST-only rules, sorted as `Linter.check` sorts;
+`<bad urls>`: the Docker URIs `url.Parse` rejects; `<zones>`: the zone names (of the CRON specs of the document) that
+`time.LoadLocation` knows, none when left out -/
+def handleLint : List String → String
+  | [nums, urls, node] => lintWith nums urls "E" node
+  | [nums, urls, zones, node] => lintWith nums urls zones node
   | _ => "bad-op"
 
 end Driver.ParseWfD
@@ -365,9 +382,8 @@ def configEnvOf : SExp → Option (AL.Rules.LabelCfg × Option (List String))
     pure ({ known := ls, pmatch := fun p l => if bs.any (fun e => e.1 = p && e.2 = l) then none else some (ms.any fun e => e.1 = p && e.2 = l) }, vs)
   | _ => none
 
-/-- `lintwfp <numbers> <bad urls> <env> <action env> <config env> <node>`: `lintwf` for a file linted inside a project -/
-def handleLintP : List String → String
-  | [nums, urls, env, aenv, cenv, node] =>
+/-- `lintwfp <numbers> <bad urls> [<zones>] <env> <action env> <config env> <node>`: `lintwf` for a file linted inside a project -/
+def lintPWith (nums urls zones env aenv cenv node : String) : String :=
     let ns : Option (List Num) := match readSExp nums with
       | some (.atom "E") => some []
       | some (.list l) => l.mapM numOf
@@ -375,13 +391,19 @@ def handleLintP : List String → String
     let bad : Option (List String) := match readSExp urls with
       | some (.list l) => l.mapM SExp.str?
       | _ => none
-    match ns, bad, (readSExp env) >>= envOf, (readSExp aenv) >>= actionEnvOf, (readSExp cenv) >>= configEnvOf, (readSExp node) >>= nodeOf with
-    | some ns, some bad, some env, some aenv, some cenv, some n =>
+    match ns, bad, zonesOf zones, (readSExp env) >>= envOf, (readSExp aenv) >>= actionEnvOf, (readSExp cenv) >>= configEnvOf, (readSExp node) >>= nodeOf with
+    | some ns, some bad, some zs, some env, some aenv, some cenv, some n =>
       let isNum : String → Bool := fun s => match ns.find? (·.value = s) with
         | some x => (match x.float with | .err => false | _ => true)
         | none => false
-      ";".intercalate ((AL.ProjLint.lint (cfgOf ns) isNum (fun u => !bad.contains u) { calls := env, actions := aenv, labels := cenv.1, configVars := cenv.2 } n).map diagS)
-    | _, _, _, _, _, _ => "bad-op"
+      let lc : AL.Rules.LabelCfg := { cenv.1 with zoneKnown := fun z => zs.contains (String.ofList z) }
+      lintAnswer (AL.ProjLint.lint (cfgOf ns) isNum (fun u => !bad.contains u) { calls := env, actions := aenv, labels := lc, configVars := cenv.2 } n)
+        (AL.Rules.cronUnmodelled (parse (cfgOf ns) n).1 lc)
+    | _, _, _, _, _, _, _ => "bad-op"
+
+def handleLintP : List String → String
+  | [nums, urls, env, aenv, cenv, node] => lintPWith nums urls "E" env aenv cenv node
+  | [nums, urls, zones, env, aenv, cenv, node] => lintPWith nums urls zones env aenv cenv node
   | _ => "bad-op"
 
 /-- `exprwfp <numbers> <env> <action env> <config env> <node>`: `exprwf` for a file linted inside a project -/
